@@ -356,8 +356,15 @@ Inductive skip := SkipNo | SkipAll | SkipOver (k : nat).     (* False / True (or
 
 Definition skipped_marker (b : bytes) : bytes := A "<body skipped (len=" ++ dec_len b ++ A ")>".
 
+(* url[len(host):] or "/" — a request line cannot go without a target (fixes/C20-4) *)
+Definition request_target (e : env) : str :=
+  match skipn (length (host_url e)) (url e) with
+  | [] => [47]
+  | t => t
+  end.
+
 Definition request_line (e : env) : str :=
-  e_method e ++ [32] ++ skipn (length (host_url e)) (url e) ++ [32] ++ e_proto e.
+  e_method e ++ [32] ++ request_target e ++ [32] ++ e_proto e.
 
 (* Request.as_bytes: the bytes, and the request afterwards (reading .body may set Content-Length) *)
 Definition as_bytes (sk : skip) (e : env) : res (bytes * env) :=
@@ -409,16 +416,34 @@ Fixpoint hdr_loop (fuel : nat) (sp : N -> bool) (d : dict) (s : str) : res (dict
           hdr_loop f sp (dict_set key hval' d) s'
   end.
 
+(* the shortest prefix whose encoding is at least n bytes long, cw c being the number of bytes the
+   character c encodes to (1 for every element of a binary file): fp.read(n) on a binary file,
+   util.read_text_body(fp, n, encoding) on a text file (fixes/C20-5) *)
+Fixpoint take_width (cw : N -> nat) (n : nat) (s : str) {struct s} : str * str :=
+  match s with
+  | [] => ([], [])
+  | c :: s' =>
+      match n with
+      | O => ([], s)
+      | _ => let '(a, b) := take_width cw (n - cw c) s' in (c :: a, b)
+      end
+  end.
+
+Definition one_byte (c : N) : nat := 1%nat.
+Definition utf8_width (c : N) : nat :=
+  if c <? 128 then 1%nat else if c <? 2048 then 2%nat else if c <? 65536 then 3%nat else 4%nat.
+
 (* fp.read(clen) / fp.read() *)
-Definition read_body (clen : option Z) (s : str) : str * str :=
+Definition read_body (cw : N -> nat) (clen : option Z) (s : str) : str * str :=
   match clen with
-  | Some n => if (n <? 0)%Z || (Z.of_nat (length s) <=? n)%Z then (s, [])
-              else (firstn (Z.to_nat n) s, skipn (Z.to_nat n) s)
+  | Some n => if (n <? 0)%Z || (4 * Z.of_nat (length s) <? n)%Z then (s, [])      (* no character is wider than 4 *)
+              else take_width cw (Z.to_nat n) s
   | None => (s, [])
   end.
 
-(* text = false: a binary file, conv = Ok;  text = true: a text file, conv = utf-8 encoding of the body text *)
-Definition req_from_file (text : bool) (conv : str -> res bytes) (s : str) : res (env * str) :=
+(* text = false: a binary file, conv = Ok;  text = true: a text file, conv = utf-8 encoding of the body text,
+   cw = utf8_width.  The method is kept as it is written (fixes/C20-6) *)
+Definition req_from_file (text : bool) (conv : str -> res bytes) (cw : N -> nat) (s : str) : res (env * str) :=
   let sp := space_of text in
   let '(l0, s1) := readline s in
   match split_ws_max sp 2 (rstrip_crlf l0) with
@@ -430,9 +455,9 @@ Definition req_from_file (text : bool) (conv : str -> res bytes) (s : str) : res
         match hdr_loop (S (length s1)) sp [] s1 with
         | Er x => Er x
         | Ok (d, s2) =>
-            let e0 := mkEnv (upper m) [] (url_unquote p) q ver (A "http") (A "localhost") (A "80")
+            let e0 := mkEnv m [] (url_unquote p) q ver (A "http") (A "localhost") (A "80")
                             d [] true false in
-            let '(raw, s3) := read_body (content_length e0) s2 in
+            let '(raw, s3) := read_body cw (content_length e0) s2 in
             match conv raw with
             | Er x => Er x
             | Ok body => Ok (set_body e0 body, s3)
@@ -462,7 +487,7 @@ Fixpoint utf8_enc (s : str) : res bytes :=
 
 (* Request.from_bytes *)
 Definition from_bytes (b : bytes) : res env :=
-  match req_from_file false conv_id b with
+  match req_from_file false conv_id one_byte b with
   | Er x => Er x
   | Ok (e, rest) => if is_nil rest then Ok e else Er e_Value
   end.
@@ -533,7 +558,7 @@ Definition resp_clen (hl : list (str * str)) : res Z :=
   end.
 
 (* Response.from_file (repaired): text = true for a text file, conv encodes the body text *)
-Definition resp_from_file (text : bool) (conv : str -> res bytes) (s : str) : res (resp * str) :=
+Definition resp_from_file (text : bool) (conv : str -> res bytes) (cw : N -> nat) (s : str) : res (resp * str) :=
   let '(l0, s1) := readline s in
   let st0 := strip_by is_space_bytes l0 in
   let http := starts_with (A "HTTP/") st0 in
@@ -558,7 +583,7 @@ Definition resp_from_file (text : bool) (conv : str -> res bytes) (s : str) : re
               match resp_clen hl with
               | Er x => Er x
               | Ok n =>                                      (* content_length or 0 *)
-                  let '(raw, s3) := read_body (Some n) s2 in
+                  let '(raw, s3) := read_body cw (Some n) s2 in
                   match conv raw with
                   | Er x => Er x
                   | Ok body =>
